@@ -85,7 +85,7 @@ _ONE_TO_ONE_INSTRUCTIONS = frozenset(
         "sub",
         "mul",
         "div",
-        "smul",
+        "byte",
         "sdiv",
         "mod",
         "smod",
